@@ -336,7 +336,7 @@ fn preempt_schedules(r: &mut Rng, ntasks: usize, max_ops: usize, count: usize, e
 
 /// C13: a reader request interleaved with a publish, on the writer instance or on a separate
 /// (cached) instance whose view lags behind storage
-async fn c13_case<TC: Configuration>(cx: &mut Cx, r: &mut Rng, reader_cached: bool, lag: u64, same_instance: bool, job_kind: u32, schedule: &[usize]) {
+async fn c13_case<TC: Configuration>(cx: &mut Cx, r: &mut Rng, reader_cached: bool, lag: u64, same_instance: bool, job_kind: u32, schedule: &[usize], post: bool) {
     let cfg = cfg_name::<TC>();
     let (base, labels) = base_history();
     let ctl = Ctl::new(2);
@@ -369,8 +369,13 @@ async fn c13_case<TC: Configuration>(cx: &mut Cx, r: &mut Rng, reader_cached: bo
         5 => Job::HistoryRecent(labels[0].clone(), 1),
         6 => Job::HistoryRecent(labels[0].clone(), 2),
         7 => Job::HistoryRecent(labels[2].clone(), 1),
+        // audits inside what the (possibly lagging) reader itself has seen
+        8 => Job::Audit(0, base.len() as u64),
+        9 => Job::Audit(base.len() as u64 - 1, base.len() as u64),
         _ => Job::EpochHash,
     };
+    // post: tasks can also be preempted between a storage operation and its return to the caller
+    ctl.post_gate.store(post, Ordering::SeqCst);
     ctl.free_run.store(false, Ordering::SeqCst);
     let mut handles = vec![];
     {
@@ -399,10 +404,10 @@ async fn c13_case<TC: Configuration>(cx: &mut Cx, r: &mut Rng, reader_cached: bo
         hashes.push(e.1);
     }
     cx.note(format!("C13 cfg {} same {} cached {} lag {} job {} schedule {} -> {}", cfg, same_instance, reader_cached, lag, job_kind, schedule.iter().map(|x| x.to_string()).collect::<String>(), match &outs[1] { Outcome::Read(Ok((e, _, v, _))) => format!("answer epoch {} verified {}", e, v), _ => "error".into() }));
-    let what = format!("[cfg {} reader {} lag {} job {} schedule {}]", cfg, if same_instance { "same instance".to_string() } else { format!("separate instance cached {}", reader_cached) }, lag, job_kind, schedule.iter().map(|x| x.to_string()).collect::<String>());
+    let what = format!("[cfg {} reader {} lag {} job {} post-gates {} schedule {}]", cfg, if same_instance { "same instance".to_string() } else { format!("separate instance cached {}", reader_cached) }, lag, job_kind, post, schedule.iter().map(|x| x.to_string()).collect::<String>());
     if let Outcome::Read(Ok((e, h, verified, desc))) = &outs[1] {
         cx.stat("c13_answers");
-        if job_kind == 2 {
+        if job_kind == 2 || job_kind == 8 || job_kind == 9 {
             if !*verified {
                 cx.fail(format!("C13 {}: {} does not verify against the published hashes", what, desc));
             }
@@ -455,6 +460,98 @@ async fn c13_poll<TC: Configuration>(cx: &mut Cx) {
     poller.abort();
 }
 
+/// C13: a request whose storage read was served before a commit but is delivered after the change poller
+/// flushed the cache must not leave the instance answering (new epoch, old root).  The reader's request is
+/// parked after k storage operations (before or after the operation itself), the writer publishes, the
+/// poller gets its chance, then the reader continues.
+async fn c13_poll_race<TC: Configuration>(cx: &mut Cx, k: usize) {
+    let cfg = cfg_name::<TC>();
+    let (base, labels) = base_history();
+    let ctl = Ctl::new(1);
+    let db = GateDb { inner: AsyncInMemoryDatabase::new(), ctl: ctl.clone() };
+    let writer = gdir::<TC>(&db, false).await;
+    let mut hashes = vec![writer.get_epoch_hash().await.unwrap().1];
+    for b in &base {
+        hashes.push(writer.publish(upd(b)).await.unwrap().1);
+    }
+    let reader = gdir::<TC>(&db, true).await;
+    let _ = reader.get_epoch_hash().await;
+    let pk = HardCodedAkdVRF {}.get_vrf_public_key().await.unwrap().as_bytes().to_vec();
+    let (tx, mut rx) = tokio::sync::mpsc::channel(8);
+    let rd = reader.clone();
+    let poller = tokio::spawn(async move {
+        let _ = rd.poll_for_azks_changes(Duration::from_millis(2), Some(tx)).await;
+    });
+    ctl.post_gate.store(true, Ordering::SeqCst);
+    ctl.free_run.store(false, Ordering::SeqCst);
+    let rd = reader.clone();
+    let l0 = labels[0].clone();
+    let h = tokio::spawn(TASK.scope(0, async move { rd.lookup(AkdLabel(l0)).await.map(|(_, e)| (e.0, e.1)).map_err(|e| format!("{:?}", e)) }));
+    // let the request perform k gate passages, then leave it parked
+    for _ in 0..k {
+        for _ in 0..200 {
+            tokio::task::yield_now().await;
+            if ctl.waiting[0].load(Ordering::SeqCst) || h.is_finished() {
+                break;
+            }
+        }
+        if h.is_finished() {
+            break;
+        }
+        ctl.sems[0].add_permits(1);
+    }
+    for _ in 0..200 {
+        tokio::task::yield_now().await;
+    }
+    // the writer commits an epoch touching the same paths; the poller may notice
+    let b: Vec<(Vec<u8>, Vec<u8>)> = labels.iter().take(6).map(|l| (l.clone(), vec![42, k as u8])).collect();
+    let eh = writer.publish(upd(&b)).await.unwrap();
+    hashes.push(eh.1);
+    let mut signalled = tokio::time::timeout(Duration::from_millis(40), rx.recv()).await.map(|x| x.is_some()).unwrap_or(false);
+    // the parked request continues
+    ctl.free_run.store(true, Ordering::SeqCst);
+    ctl.sems[0].add_permits(1_000_000);
+    let first = tokio::time::timeout(Duration::from_secs(20), h).await;
+    if !signalled {
+        signalled = tokio::time::timeout(Duration::from_secs(5), rx.recv()).await.map(|x| x.is_some()).unwrap_or(false);
+    }
+    cx.stat("c13_poll_race");
+    cx.note(format!("C13 poll race cfg {} parked after {} gate passages", cfg, k));
+    let what = format!("[cfg {} change poller racing a request parked after {} storage gate passages]", cfg, k);
+    if !signalled {
+        cx.fail(format!("C13 {}: the poller never signalled epoch {}", what, eh.0));
+    }
+    if let Ok(Ok(Ok((e, hsh)))) = &first {
+        if (*e as usize) >= hashes.len() || hashes[*e as usize] != *hsh {
+            cx.fail(format!("C13 {}: the overlapping request named (epoch {}, {}) which was never published", what, e, hx(hsh)));
+        }
+    }
+    // requests issued after the signal
+    match reader.get_epoch_hash().await {
+        Ok(g) => {
+            if (g.0 as usize) >= hashes.len() || hashes[g.0 as usize] != g.1 {
+                cx.fail(format!("C13 {}: after the poll signal get_epoch_hash names (epoch {}, {}) which the directory never published (hash of that epoch: {})", what, g.0, hx(&g.1), hashes.get(g.0 as usize).map(|x| hx(x)).unwrap_or("none".into())));
+            } else if g.0 < eh.0 {
+                cx.fail(format!("C13 {}: after the poll signal for epoch {} the instance still answers from epoch {}", what, eh.0, g.0));
+            }
+        }
+        Err(e) => cx.fail(format!("C13 {}: get_epoch_hash after the poll signal failed: {:?}", what, e)),
+    }
+    for l in [labels[0].clone(), labels[2].clone()] {
+        match reader.lookup(AkdLabel(l.clone())).await {
+            Ok((p, e)) => {
+                if (e.0 as usize) >= hashes.len() || hashes[e.0 as usize] != e.1 {
+                    cx.fail(format!("C13 {}: after the poll signal a lookup names (epoch {}, {}) which was never published", what, e.0, hx(&e.1)));
+                } else if lookup_verify::<TC>(&pk, e.1, e.0, AkdLabel(l.clone()), p).is_err() {
+                    cx.fail(format!("C13 {}: after the poll signal the lookup proof of {} does not verify against the published pair it names (epoch {})", what, hb(&l), e.0));
+                }
+            }
+            Err(_) => cx.stat("c13_errors"),
+        }
+    }
+    poller.abort();
+}
+
 pub fn run(seed: u64, tier: u32, which: &str) -> Cx {
     let rt = tokio::runtime::Builder::new_current_thread().enable_all().build().unwrap();
     let mut cx = Cx::new();
@@ -479,7 +576,7 @@ pub fn run(seed: u64, tier: u32, which: &str) -> Cx {
             let mut i = 0usize;
             for kind in 0..3u32 {
                 for lag in 0..4u64 {
-                    for job in 0..8u32 {
+                    for job in 0..10u32 {
                         let scheds = preempt_schedules(&mut r, 2, 26, per, true);
                         for s in scheds.iter() {
                             let (same, rc) = match kind { 0 => (true, false), 1 => (false, false), _ => (false, true) };
@@ -487,13 +584,17 @@ pub fn run(seed: u64, tier: u32, which: &str) -> Cx {
                                 continue;
                             }
                             i += 1;
-                            if i % 2 == 0 { c13_case::<W>(&mut cx, &mut r, rc, lag, same, job, s).await } else { c13_case::<E>(&mut cx, &mut r, rc, lag, same, job, s).await }
+                            let post = std::env::var("VERIF_C13_POST").is_ok() || i % 3 == 0;
+                            if i % 2 == 0 { c13_case::<W>(&mut cx, &mut r, rc, lag, same, job, s, post).await } else { c13_case::<E>(&mut cx, &mut r, rc, lag, same, job, s, post).await }
                         }
                     }
                 }
             }
             c13_poll::<W>(&mut cx).await;
             c13_poll::<E>(&mut cx).await;
+            for k in 1..(if tier == 0 { 14 } else { 30 }) {
+                if k % 2 == 0 { c13_poll_race::<W>(&mut cx, k).await } else { c13_poll_race::<E>(&mut cx, k).await }
+            }
         }
     });
     cx
